@@ -811,9 +811,9 @@ impl<'a> ArxmlParser<'a> {
                         regex: (*regex).to_string(),
                     })?;
                 }
-                // text with regex pattern validation doesn't need unescaping - none of the regexes will allow any of the the escaped chars
+                // most of the regexes don't allow any of the escaped chars, but some do (e.g. the one of REVISION-LABEL ends with .*)
                 match std::str::from_utf8(trimmed_input) {
-                    Ok(utf8string) => Ok(CharacterData::String(utf8string.to_owned())),
+                    Ok(utf8string) => Ok(CharacterData::String(self.unescape_string(utf8string)?.into_owned())),
                     Err(err) => {
                         self.optional_error(ArxmlParserError::Utf8Error { source: err })?;
                         Ok(CharacterData::String(
